@@ -70,12 +70,12 @@ type SOp struct {
 }
 
 type SColl struct {
-	ID    int64           `json:"id"`
-	DBID  int64           `json:"dbid"`
-	DB    string          `json:"db"`
-	Name  string          `json:"name"`
-	Shard int             `json:"shard"`
-	Ts    uint64          `json:"ts"`
+	ID    int64            `json:"id"`
+	DBID  int64            `json:"dbid"`
+	DB    string           `json:"db"`
+	Name  string           `json:"name"`
+	Shard int              `json:"shard"`
+	Ts    uint64           `json:"ts"`
 	Parts map[string]int64 `json:"parts"`
 }
 
@@ -248,7 +248,8 @@ func genSOps(rng *Rng, sc *SScript, prop string) {
 				if rng.Pct(50) {
 					sp.Target = 1
 				} else {
-					sp.Coll = "c1"
+					// same downstream: the explicit collection has to come first (a '*' task then excludes it)
+					sc.Ops[len(sc.Ops)-1].Spec.Coll = "c1"
 				}
 			}
 			sc.Ops = append(sc.Ops, SOp{K: "create", Task: newTask(), Spec: sp})
@@ -257,6 +258,12 @@ func genSOps(rng *Rng, sc *SScript, prop string) {
 			sc.Ops = append(sc.Ops, SOp{K: "pause", Task: "tk01"}, SOp{K: "resume", Task: "tk01"})
 		}
 		sc.Faults["dw_err"] = rng.Range(0, 2)
+		if rng.Pct(35) {
+			sc.Faults["dw_down"] = 1
+		}
+		if rng.Pct(40) {
+			sc.Faults["dw_pack"] = 1
+		}
 		if rng.Pct(40) {
 			sc.Faults["store_err_before"] = rng.Range(1, 2)
 		}
@@ -348,7 +355,9 @@ type rawBody struct {
 
 func genRawOps(rng *Rng, sc *SScript, tasks []string) {
 	mcp := `"milvus_connect_param":{"uri":"http://tgt-a:19530"}`
-	cr := func(rest string) string { return `{"request_type":"create","request_data":{"task_id":"@ID@",` + rest + `}}` }
+	cr := func(rest string) string {
+		return `{"request_type":"create","request_data":{"task_id":"@ID@",` + rest + `}}`
+	}
 	bodies := []rawBody{
 		{``, false}, {`{`, false}, {`null`, false}, {`[]`, false}, {`"x"`, false}, {`{"request_type":1}`, false}, {`{"request_type":"nope"}`, false},
 		{`{"request_type":"create"}`, true},
